@@ -19,14 +19,29 @@ theorem never_idle_under_active_rpc {s : St} (h : Reach s) (hc : s.closed = fals
     s.idle = true → s.inCall = 0 :=
   fun hi => ((reach_inv h).safe hc hi).2.2.1
 
-/-- cc.EnterIdleMode() is only ever called (rule tryEnter) in a state with no RPC in flight. -/
+/-- cc.EnterIdleMode() is only ever called (rule tryEnter), and runs (holder = t3cb), in a state with no RPC in
+    flight and none completing its OnCallBegin. -/
 theorem enter_idle_only_without_active_rpc {s t : St} (h : Reach s) (hc : s.closed = false)
     (st : apply s .tryEnter = some t) : s.inCall = 0 ∧ t.inCall = 0 := by
   have hl := (reach_inv h).late hc
   simp only [apply] at st
   split at st
-  · rename_i hg; simp at st; subst st; exact ⟨(hl hg.1).2.2, (hl hg.1).2.2⟩
+  · rename_i hg; simp at st; subst st; exact ⟨(hl (Or.inl hg.1)).2.2, (hl (Or.inl hg.1)).2.2⟩
   · simp at st
+
+theorem no_rpc_during_enter_callback {s : St} (h : Reach s) (hc : s.closed = false) (hh : s.holder = .t3cb) :
+    s.b2f = 0 ∧ s.b2s = 0 ∧ s.inCall = 0 :=
+  (reach_inv h).late hc (Or.inr hh)
+
+/-- While some goroutine is inside the cc.ExitIdleMode() callback — the channel is still LEAVING idle mode — no
+    RPC has returned from OnCallBegin and none is about to (nobody is at the final store): every RPC start that
+    found the channel idle returns only after the channel has left idle mode. -/
+theorem no_rpc_returns_during_exit_callback {s : St} (h : Reach s) (hc : s.closed = false)
+    (hh : s.holder = .xrcb ∨ s.holder = .xccb) : s.b2f = 0 ∧ s.b2s = 0 ∧ s.inCall = 0 := by
+  have i := reach_inv h
+  have hi : s.idle = true := i.exitIdle (by rcases hh with hh | hh <;> simp [exiting, hh])
+  have := i.safe hc hi
+  exact ⟨this.1, this.2.1, this.2.2.1⟩
 
 /-- OnCallBegin returns (its final store is enabled: some goroutine at b2f or b2s) only when the
     channel is not idle: an RPC start that found the channel idle or entering idle returns only
@@ -47,14 +62,14 @@ theorem exit_only_when_balanced {s t : St} (h : Reach s) (r : Rule) (st : apply 
   have a := (reach_inv h).alt
   have e := (reach_inv h).exitIdle
   cases r <;> simp only [apply] at st <;> (try split at st) <;> simp at st <;> subst st <;>
-    simp_all [exiting] <;> omega
+    simp_all [exiting, entering] <;> omega
 
 theorem enter_only_after_exit {s t : St} (h : Reach s) (r : Rule) (st : apply s r = some t)
     (hx : t.enters = s.enters + 1) : s.exits = s.enters + 1 := by
   have a := (reach_inv h).alt
   have o := (reach_inv h).tryOff
   cases r <;> simp only [apply] at st <;> (try split at st) <;> simp at st <;> subst st <;>
-    simp_all [exiting, tryCount] <;> omega
+    simp_all [exiting, entering, tryCount] <;> omega
 
 /-- The counter never leaves the int32 range assumed by the code (fewer than 2^31-1 RPCs). -/
 theorem counter_in_range {s : St} (h : Reach s) : -M ≤ s.cnt ∧ s.cnt < M := by
@@ -66,14 +81,14 @@ theorem counter_in_range {s : St} (h : Reach s) : -M ≤ s.cnt ∧ s.cnt < M := 
   split at l <;> omega
 
 -- non-vacuity: an RPC starting while idle drives exit; the timer then re-enters idle
-example : (run init [.beginCheck, .beginAddSlow, .exitLockR, .exitCheckIdleR, .exitAddR, .exitResetR,
+example : (run init [.beginCheck, .beginAddSlow, .exitLockR, .exitCheckIdleR, .exitCbDoneR, .exitAddR, .exitResetR,
     .beginStoreSlow]).inCall = 1 := by decide
-example : (run init [.beginCheck, .beginAddSlow, .exitLockR, .exitCheckIdleR, .exitAddR, .exitResetR,
+example : (run init [.beginCheck, .beginAddSlow, .exitLockR, .exitCheckIdleR, .exitCbDoneR, .exitAddR, .exitResetR,
     .beginStoreSlow, .endCheckOpen, .endStoreTime, .endAdd, .timerCheck, .timerLoadFree, .timerActYes,
     .timerStoreAct, .timerLoadTime, .resetLock, .resetDone, .timerCheck, .timerLoadFree, .timerActNo,
-    .casOk, .tryLock, .tryLoadOk, .tryEnter]).idle = true := by decide
+    .casOk, .tryLock, .tryLoadOk, .tryEnter, .tryEnterDone]).idle = true := by decide
 -- the race the re-check under the lock is there for: RPC starts between the CAS and the lock
-example : (run init [.connectLock, .exitCheckIdleC, .exitAddC, .exitResetC, .timerCheck, .timerLoadFree,
+example : (run init [.connectLock, .exitCheckIdleC, .exitCbDoneC, .exitAddC, .exitResetC, .timerCheck, .timerLoadFree,
     .timerActNo, .casOk, .beginCheck, .beginAddSlow, .tryLock, .tryLoadLost, .tryUndo2]).cnt = 1 := by decide
 
 end GrpcProofs.C29
